@@ -139,6 +139,12 @@ pub fn run(ctx: &Ctx, replay: Option<&J>) -> i32 {
     }
     let rows: Vec<Row> = par_map(&(0..n).collect::<Vec<_>>(), |&i| {
         let mut sess = Session::new();
+        // every second row works on a heap that already holds tens of thousands of other values
+        // (distinct short strings, small lists, records): nothing about a comparison may depend on
+        // what else the heap contains or on how full an internal table is
+        if i % 2 == 1 {
+            let _ = sess.run("junk = [range(0, 70000) via (i => to_string(i)), range(0, 5000) via (i => [i, to_string(i)]), range(0, 5000) via (i => {k: i})]");
+        }
         let o = sess.run(&prelude);
         let mut row = Row { dots: vec![], us: vec![], plain: vec![], sorts: vec![], bad: vec![] };
         if !o.is_ok() {
